@@ -144,7 +144,7 @@ impl Prop for C13 {
     }
     fn meta(&self, _tier: Tier) -> Meta {
         Meta {
-            rule: "cases = clone scenarios of C02/C03 (seeds, prior output, --seed-output, block device) observed at the output's write interface: L1 = logical writes (seek + contiguous data) of the instrumented in-memory output; L2 = iohook write log of the real bita process on the output path. Oracle over the whole log: every write is exactly one source chunk (per the reference chunker R1) at one of its source offsets, no location twice, no write at a location where the scan of the prior output (R1 on the prior content) already found the right chunk, nothing at or beyond the source length. Variant 'layout': abstract chunk layouts through the real planner/executor. Variant 'faults': the L1 scenarios with one injected fault on the output (a read of the old output, a seek or a write fails with EIO; a short write; Pending): a clone that fails is outside C13, one that still reports success is held to the same write rules. Non-trivial = scenario with >=1 chunk already in place, >=1 moved and >=1 fetched chunk; distinct by Blake2 of the canonical case.".into(),
+            rule: "cases = clone scenarios of C02/C03 (seeds, prior output, --seed-output, block device) observed at the output's write interface: L1 = logical writes (seek + contiguous data) of the instrumented in-memory output; L2 = iohook write log of the real bita process on the output path. Oracle over the whole log: every write is exactly one source chunk (per the reference chunker R1) at one of its source offsets, no location twice, no write at a location where the scan of the prior output (R1 on the prior content) already found the right chunk, nothing at or beyond the source length. Variant 'layout': abstract chunk layouts through the real planner/executor. Variant 'bigmove': layouts with chunks of 1-3.2 MB moved by less than their own size. Variant 'faults': the L1 scenarios with one injected fault on the output (a read of the old output, a seek or a write fails with EIO; a short write; Pending): a clone that fails is outside C13, one that still reports success is held to the same write rules. Non-trivial = scenario with >=1 chunk already in place, >=1 moved and >=1 fetched chunk; distinct by Blake2 of the canonical case.".into(),
             assumptions: vec!["chunks above tokio's 2 MiB file buffer would be split into several write calls; logical writes coalesce contiguous calls after one seek".into()],
             ..Meta::default()
         }
@@ -153,6 +153,9 @@ impl Prop for C13 {
         let t = cx.tier;
         cx.run_prop("l1", t.pick(24_000, 400_000), scenario_strategy(8, true, true), scenario_case);
         cx.run_prop("layout", t.pick(200_000, 3_000_000), layout_strategy(), layout_case);
+        // chunks of 1-3 MB that move by less than their own size (the shapes of C03's 'bigmove'): a move must arrive as the
+        // chunk's bytes whatever its size
+        cx.run_prop("bigmove", t.pick(96, 2000), crate::props::c03::big_layout_strategy(), layout_case);
         cx.run_prop("faults", t.pick(16_000, 300_000), faulted_strategy(), faulted_case);
         crate::props::l2scen::run_l2_variant(cx, "C13", t.pick(2400, 30000), scenario_strategy(8, true, true).boxed(), |_s, e, rec| {
             rec.nontrivial = !e.in_place_offsets.is_empty() && e.src_chunks.iter().any(|m| e.in_prior.contains(&m.key(e.hash_len)) && !e.in_place_offsets.contains(&m.off)) && !e.missing.is_empty();
@@ -163,7 +166,7 @@ impl Prop for C13 {
         match variant {
             "l2" => crate::props::l2scen::replay_l2("C13", case, &mut rec),
             "faults" => faulted_case(&serde_json::from_value(case.clone()).map_err(|e| e.to_string())?, &mut rec),
-            "layout" => layout_case(&serde_json::from_value(case.clone()).map_err(|e| e.to_string())?, &mut rec),
+            "layout" | "bigmove" => layout_case(&serde_json::from_value(case.clone()).map_err(|e| e.to_string())?, &mut rec),
             _ => scenario_case(&serde_json::from_value(case.clone()).map_err(|e| e.to_string())?, &mut rec),
         }
     }
